@@ -149,6 +149,10 @@ class Node:
     def cfg_words(self):
         return []
 
+    def cfg_kinds(self):
+        """scalar kind of every configuration word (same length as cfg_words)"""
+        return []
+
     def cells(self):
         return self.child.cells() if self.child else []
 
@@ -294,6 +298,9 @@ class Constant(Node):
 
     def cfg_words(self):
         return [enc(self.out_sk, v) for v in self.val]
+
+    def cfg_kinds(self):
+        return [self.out_sk] * self.M
 
     def view_size(self):
         return (BYTES[self.out_sk] * self.M, BYTES[self.out_sk])
@@ -522,6 +529,9 @@ class Layout(Node):
     def cfg_words(self):
         return list(self.sizes)
 
+    def cfg_kinds(self):
+        return ["u64"] * self.N
+
     def view_size(self):
         s, a = self.child.view_size()
         return (align(max(8, a), align(a, 8 * self.N) + s), max(8, a))
@@ -624,6 +634,10 @@ class Clamp(Wrapper):
             return list(self.lo_b) + list(self.hi_b)
         return [enc(sk, x) for x in self.lo] + [enc(sk, x) for x in self.hi]
 
+    def cfg_kinds(self):
+        sk, N, _ = self.in_kind()
+        return [sk] * (2 * N)
+
     def view_size(self):
         s, a = self.child.view_size()
         sk, N, _ = self.in_kind()
@@ -682,6 +696,11 @@ class Backup(Wrapper):
         if getattr(self, "lo_b", None):
             return list(self.lo_b) + list(self.hi_b) + list(self.df_b)
         return [enc(sk, x) for x in self.lo] + [enc(sk, x) for x in self.hi] + [enc(osk, x) for x in self.df]
+
+    def cfg_kinds(self):
+        sk, N, _ = self.in_kind()
+        osk, M = self.out_kind()
+        return [sk] * (2 * N) + [osk] * M
 
     def view_size(self):
         s, a = self.child.view_size()
@@ -951,6 +970,10 @@ class Affine(Wrapper):
     def cfg_words(self):
         sk = self.in_kind()[0]
         return [enc(sk, x) for row in self.mat for x in row]
+
+    def cfg_kinds(self):
+        sk, N, _ = self.in_kind()
+        return [sk] * (N * (N + 1))
 
     def view_size(self):
         s, a = self.child.view_size()
